@@ -273,6 +273,9 @@ STATE_WRITERS = {
     "pruned_variables": {"Analyzer::prune_at_label": {"entry"}, "Analyzer::use_variable": {"remove"}},
     "poisoned_variables": {"Analyzer::use_variable": {"insert"}},
     "unresolved_labels": {"Analyzer::prepare_to_prune_at_goto": {"entry"}, "Analyzer::prune_at_label": {"remove"}},
+    # the "we are inside the initialiser of constant X" context that turns every used name into a containee of X
+    # (containment feeds cycle detection and the depth sort of C11): set and cleared around the initialiser only
+    "in_constexpr_of_constant": {"<alpha::common::Declaration as Analyzable>::analyze": {"="}},
 }
 
 
